@@ -122,8 +122,8 @@ mut('c19-lla-diff-inplace', 'C19', 'pyins/transform.py', "    diff = lla1 - lla2
 mut('c19-sim-inertial-copy', 'C19', 'pyins/sim.py', "    lla_inertial = lla.copy()", "    lla_inertial = lla", "generate_imu shifts the caller's longitude")
 mut('c19-perturb-pva-copy', 'C19', 'pyins/sim.py', "    result = pva.copy()\n    result[LLA_COLS] = transform.perturb_lla(", "    result = pva\n    result[LLA_COLS] = transform.perturb_lla(", "perturb_pva modifies its argument")
 mut('c19-integrator-copy', 'C19', S, "        self.initial_pva = pva.copy()", "        self.initial_pva = pva", "Integrator(…, with_altitude=False) zeroes the caller's VD")
-mut('c19-ff-traj-copy', 'C19', F, "    trajectory = trajectory.copy()\n    trajectory.lat -=", "    trajectory.lat -=", "feedforward compensates the caller's trajectory in place")
-mut('c19-correct-inc-copy', 'C19', F, "    result = increments.copy()\n    result[THETA_COLS]", "    result = increments\n    result[THETA_COLS]", "feedback filter corrects the caller's increments in place")
+mut('c19-ff-traj-copy', 'C19', F, "    trajectory = trajectory.copy()\n    trajectory.lat -=", "    trajectory.lat -=", "EQUIVALENT under pandas 3 copy-on-write: the table was already re-indexed with .loc (a new object)")
+mut('c19-correct-inc-copy', 'C19', F, "    result = increments.copy()\n    result[THETA_COLS]", "    result = increments\n    result[THETA_COLS]", "EQUIVALENT under pandas 3 copy-on-write: assigning columns on an iloc slice copies first")
 mut('c19-ned-jac-copy', 'C19', E, "velocity_n = pva[VEL_COLS].values.copy()", "velocity_n = pva[VEL_COLS].values", "Jacobian adds lever-arm velocity into the caller's pva")
 mut('c19-global-rng', 'C19', 'pyins/sim.py', "    rng = check_random_state(rng)\n    error = error_sd * rng.randn(len(trajectory), 3)\n    lla = transform.perturb_lla(", "    rng = check_random_state(rng)\n    error = error_sd * np.random.randn(len(trajectory), 3)\n    lla = transform.perturb_lla(", "position noise drawn from the global numpy RNG")
 mut('c19-column-order', 'C19', S, "columns=['dt', 'theta_x', 'theta_y', 'theta_z',\n                                 'dv_x', 'dv_y', 'dv_z'])", "columns=['dt', 'theta_x', 'theta_y', 'theta_z',\n                                 'dv_x', 'dv_y', 'dv_z'])[['theta_x', 'theta_y', 'theta_z', 'dv_x', 'dv_y', 'dv_z', 'dt']]", "increments columns reordered")
